@@ -18,10 +18,12 @@ package boltz
 //@ func (EntityConstraint).ProcessPreCommit
 //@   modifies *
 //@ func (*EntityChangeState).fireEvents
-//@   props C08 C07
+//@   props C08 C07 C15 C16
 //@   errflow
 //@   nosafety
 //@   modifies *, ocCnt, ocFn, ocRecv
+//@   callpre[every-flow-passes-the-store's-vetoing-constraints-first-a-parent-flow-too] processPreCommit@1: recv == self
+//@   lensures[the-vetoing-constraints-are-always-asked] called(processPreCommit, 1)
 //@   ensures[one-delivery-registered] result == nil ==> regOne(ctxTx[self.Ctx], fnid("(*github.com/openziti/storage/boltz.EntityChangeState[E]).processPostCommit$bound"), self)
 //@   ensures[vetoed-registers-nothing] result != nil ==> ocCnt == old(ocCnt) && ocFn == old(ocFn) && ocRecv == old(ocRecv)
 //@   ensures[other-transactions-untouched] ocOthersSame(ctxTx[self.Ctx])
